@@ -555,7 +555,7 @@ def judge(job, acc, prop):
           f'{diff[0]}, rebuilt engine row {diff[1]}')
 
 
-def jobs(depth, ts_list=(1, 2), lite=False):
+def jobs(depth, ts_list=(1, 2), lite=False, half=False):
     """lite: growth timestep 1 only, listing order tied to the daughters'
     mode (for the properties that do not depend on what is in flight)."""
     out = []
@@ -575,5 +575,10 @@ def jobs(depth, ts_list=(1, 2), lite=False):
                 for ctl in ('P', 'S'):
                     for ts in ts_list:
                         for order in ('ctl-first', 'grow-first'):
+                            if half and (order == 'ctl-first') != (
+                                    fresh == (ts == 1)):
+                                # quick tier: listing order tied to
+                                # (daughters' mode, timestep)
+                                continue
                             out.append((init_i, h, ctl, ts, order, fresh))
     return out
